@@ -1115,3 +1115,7 @@ def _json_from_str(m, args, ci):
     if isinstance(tok, JsonTok) and (want is None or tok.ty == want):
         return ok(clone_value(m, tok.value))
     return err(Opaque('serde_json::Error', 'token %r is not a %s' % (tok, want)))
+
+@I.rx(r'^std::io::(error::)?Error::(new|other)$|^std::io::(error::)?Error::from$')
+def _io_error_new(m, args, ci):
+    return Opaque('io::Error', None)
